@@ -136,6 +136,9 @@ func genTransferBase(r *simrt.Rand, tier string) *TransferPlan {
 	}
 	l := gen.RandomLayout(r, o)
 	tp := &TransferPlan{Layout: l, K: knobsTransfer(r), Net: netCfg(r)}
+	if tp.K.WriteCacheSize > 0 && tp.K.WriteCacheSize < int64(l.PieceLen) {
+		tp.K.WriteCacheSize = int64(l.PieceLen) // at least one piece must fit
+	}
 	tp.DiskWriteLatMax = simrt.Pick(r, []time.Duration{time.Millisecond, 20 * time.Millisecond, 300 * time.Millisecond})
 	return tp
 }
